@@ -21,6 +21,13 @@ func Register(reg *kernel.Registry) {
 		{"Ethereum miner network (stub: header trees with forks; real RLP/keccak hashes; EIP-1559 base fee from go-ethereum consensus/misc; no proof of work)", "EVM world state of the counterparty (stub on go-ethereum's real Merkle-Patricia trie)", "relayer"},
 	}
 	reg.Serves["C10"] = append(reg.Serves["C10"], "eth")
+	reg.Scenarios["ethpow"] = ETHPowScenario{}
+	reg.Components["ethpow"] = [2][]string{
+		{"teleport application (one chain): Ethereum light client in main-net mode (chain id 1): EIP-100 difficulty rule, EIP-1559 rules, real ethash seal verification (cache generated in the temp directory), header index, fork re-pointing; through BaseApp.DeliverTx"},
+		{"Ethereum miner network (stub: a fixed pre-mined header tree with real ethash seals at minimum difficulty, delivered in plan-chosen order)", "relayer"},
+	}
+	reg.Serves["C10"] = append(reg.Serves["C10"], "ethpow")
+	reg.Serves["C14"] = append(reg.Serves["C14"], "ethpow")
 	reg.Serves["C08"] = append(reg.Serves["C08"], "eth")
 	reg.MinProbes["C10"] = []string{"update.accepted", "byz.fork"}
 	reg.Assumptions["C10"] = []string{"Rinkeby chain id (4): the client itself skips difficulty and proof-of-work checks there; PoW mode is not simulated (mining a header costs ~45 s here)", "sampling, not enumeration"}
